@@ -207,7 +207,8 @@ pub fn settle(property: &str, candidates: Vec<Case>, max_replays: usize) -> Summ
         let js = case.to_json();
         let path = format!("{}/{}-{:016x}.json", dir, property, fnv(&js.to_string()));
         let _ = std::fs::write(&path, serde_json::to_string_pretty(&js).unwrap());
-        match replay_case(&case, &path, Duration::from_secs(5)) {
+        let cap = if case.note.starts_with("compile-timeout") { 40 } else { 5 };
+        match replay_case(&case, &path, Duration::from_secs(cap)) {
             Replay::Reproduced(what) => {
                 if let Some(id) = known.matches(&case, &what) {
                     let e = sum.known.entry(id).or_insert((0, format!("{} {} L{} w{} program {:?}: {}", case.backend.name(), mode_name(&case), case.level, case.width, short(&case.program), what)));
